@@ -14,6 +14,7 @@
 #include <deque>
 #include <iterator>
 #include <string>
+#include <type_traits>
 #include <utility>
 #include <vector>
 
@@ -138,6 +139,113 @@ Value parallel_reduce(const Range &r, const Value &identity, const RealBody &bod
     return v;
 }
 
+template<class Range, class Value, class RealBody, class Reduction, class Partitioner>
+Value parallel_reduce(const Range &r, const Value &identity, const RealBody &body, const Reduction &red, const Partitioner &) {
+    return parallel_reduce(r, identity, body, red);
+}
+
+// parallel_deterministic_reduce: oneTBB's contract fixes the execution shape — the range is halved while it is divisible
+// (grainsize honoured: simple_partitioner semantics), EVERY leaf starts from the identity, the joins follow the split tree.
+// Only the order in which the leaves are evaluated is left open.
+namespace shim_detail {
+template<class Range, class Value, class RealBody, class Reduction, class Base>
+Value det_reduce_rec(const Range &r, const Value &identity, const RealBody &body, const Reduction &red, std::string &lg, const Base &base) {
+    if (!r.is_divisible()) {
+        tbbshim::ctl().leaves++;
+        lg += "L" + std::to_string((std::size_t) (r.begin() - base)) + ":" + std::to_string((std::size_t) (r.end() - base));
+        return body(r, identity);
+    }
+    std::size_t cut = r.size() / 2;
+    Range left(r.begin(), r.begin() + cut, r.grainsize()), right(r.begin() + cut, r.end(), r.grainsize());
+    tbbshim::ctl().forks++; lg += "F(";
+    if (tbbshim::ctl().mode != 0 || tbbshim::rnd() % 2 == 0) {
+        Value vl = det_reduce_rec(left, identity, body, red, lg, base); lg += ",";
+        Value vr = det_reduce_rec(right, identity, body, red, lg, base); lg += ")";
+        return red(vl, vr);
+    } else {
+        std::string lr;
+        Value vr = det_reduce_rec(right, identity, body, red, lr, base);
+        Value vl = det_reduce_rec(left, identity, body, red, lg, base); lg += "," + lr + ")";
+        return red(vl, vr);
+    }
+}
+}
+template<class Range, class Value, class RealBody, class Reduction>
+Value parallel_deterministic_reduce(const Range &r, const Value &identity, const RealBody &body, const Reduction &red) {
+    std::string lg = "reduce " + std::to_string(r.size()) + " ";
+    Value v = r.empty() ? body(r, identity) : shim_detail::det_reduce_rec(r, identity, body, red, lg, r.begin());
+    if (r.empty()) lg += "L0:0";
+    tbbshim::ctl().regions++;
+    tbbshim::ctl().log.push_back(lg);
+    return v;
+}
+template<class Range, class Value, class RealBody, class Reduction, class Partitioner>
+Value parallel_deterministic_reduce(const Range &r, const Value &identity, const RealBody &body, const Reduction &red, const Partitioner &) {
+    return parallel_deterministic_reduce(r, identity, body, red);
+}
+
+// imperative form: Body with splitting constructor and join()
+namespace shim_detail {
+template<class Range, class Body, class Base>
+void reduce_body_rec(const Range &r, Body &body, std::string &lg, const Base &base) {
+    std::size_t n = r.size();
+    int mode = tbbshim::ctl().mode;
+    bool leaf = n <= 1 || mode == 1 || (mode == 0 && tbbshim::rnd() % 3 == 0);
+    if (leaf) {
+        tbbshim::ctl().leaves++;
+        lg += "L" + std::to_string((std::size_t) (r.begin() - base)) + ":" + std::to_string((std::size_t) (r.end() - base));
+        body(r); return;
+    }
+    std::size_t cut = mode == 2 ? n / 2 : 1 + (std::size_t) (tbbshim::rnd() % (n - 1));
+    Range left(r.begin(), r.begin() + cut), right(r.begin() + cut, r.end());
+    if (tbbshim::rnd() % 2 == 0) {
+        tbbshim::ctl().seqs++; lg += "S(";
+        reduce_body_rec(left, body, lg, base); lg += ",";
+        reduce_body_rec(right, body, lg, base); lg += ")";
+        return;
+    }
+    tbbshim::ctl().forks++; lg += "F(";
+    Body rb(body, split());
+    reduce_body_rec(left, body, lg, base); lg += ",";
+    reduce_body_rec(right, rb, lg, base); lg += ")";
+    body.join(rb);
+}
+}
+template<class Range, class Body>
+void parallel_reduce(const Range &r, Body &body) {
+    std::string lg = "reduce " + std::to_string(r.size()) + " ";
+    shim_detail::reduce_body_rec(r, body, lg, r.begin());
+    tbbshim::ctl().regions++;
+    tbbshim::ctl().log.push_back(lg);
+}
+template<class Range, class Body, class Partitioner>
+void parallel_reduce(const Range &r, Body &body, const Partitioner &) { parallel_reduce(r, body); }
+
+// index forms of parallel_for, parallel_for_each, parallel_invoke: any order of the iterations
+template<class Index, class F>
+void parallel_for(Index first, Index last, Index step, const F &f) {
+    std::vector<Index> ix; for (Index i = first; i < last; i += step) ix.push_back(i);
+    parallel_for(blocked_range<std::size_t>(0, ix.size()), [&](const blocked_range<std::size_t> &r) { for (std::size_t i = r.begin(); i != r.end(); ++i) f(ix[i]); });
+}
+template<class Index, class F, typename = typename std::enable_if<std::is_integral<Index>::value>::type>
+void parallel_for(Index first, Index last, const F &f) { parallel_for(first, last, (Index) 1, f); }
+template<class It, class F>
+void parallel_for_each(It first, It last, const F &f) {
+    std::vector<It> its; for (It i = first; i != last; ++i) its.push_back(i);
+    parallel_for(blocked_range<std::size_t>(0, its.size()), [&](const blocked_range<std::size_t> &r) { for (std::size_t i = r.begin(); i != r.end(); ++i) f(*its[i]); });
+}
+template<class C, class F>
+void parallel_for_each(C &c, const F &f) { parallel_for_each(c.begin(), c.end(), f); }
+template<class F0, class F1>
+void parallel_invoke(const F0 &f0, const F1 &f1) { if (tbbshim::ctl().mode == 0 && tbbshim::rnd() % 2) { f1(); f0(); } else { f0(); f1(); } }
+template<class F0, class F1, class F2>
+void parallel_invoke(const F0 &f0, const F1 &f1, const F2 &f2) { parallel_invoke(f0, f1); f2(); }
+
+// locks: one thread, nothing to exclude
+struct spin_mutex { struct scoped_lock { scoped_lock() {} scoped_lock(spin_mutex &) {} void acquire(spin_mutex &) {} void release() {} }; void lock() {} void unlock() {} bool try_lock() { return true; } };
+typedef spin_mutex mutex; typedef spin_mutex queuing_mutex; typedef spin_mutex null_mutex;
+struct spin_rw_mutex { struct scoped_lock { scoped_lock() {} scoped_lock(spin_rw_mutex &, bool = true) {} void acquire(spin_rw_mutex &, bool = true) {} void release() {} }; };
+
 // concurrent_vector: growth never moves elements (std::deque), push_back order = execution order of the tasks
 template<class T>
 class concurrent_vector {
@@ -157,6 +265,15 @@ public:
     const_iterator end() const { return d_.end(); }
     size_type size() const { return d_.size(); }
     bool empty() const { return d_.empty(); }
+    concurrent_vector() {}
+    explicit concurrent_vector(size_type n, const T &x = T()) : d_(n, x) {}
+    template<class... A> iterator emplace_back(A &&... a) { d_.emplace_back(std::forward<A>(a)...); return d_.end() - 1; }
+    iterator grow_by(size_type n, const T &x = T()) { size_type o = d_.size(); d_.insert(d_.end(), n, x); return d_.begin() + o; }
+    void reserve(size_type) {}
+    void clear() { d_.clear(); }
+    void resize(size_type n, const T &x = T()) { d_.resize(n, x); }
+    T &front() { return d_.front(); } T &back() { return d_.back(); }
+    const T &front() const { return d_.front(); } const T &back() const { return d_.back(); }
 private:
     std::deque<T> d_;
 };
@@ -168,5 +285,30 @@ public:
     static std::size_t active_value(parameter) { return 1; }
 };
 class task_group {};
+
+// arenas and thread identity: one real thread; the identity a task observes is an arbitrary index below the arena's
+// concurrency (mode 0), which may exceed info::default_concurrency() (an oversubscribed explicit arena)
+namespace info { inline int default_concurrency() { return 4; } }
+class task_arena {
+public:
+    static const int automatic = -1;
+    static const int not_initialized = -2;
+    explicit task_arena(int n = automatic, unsigned = 1) : n_(n < 1 ? info::default_concurrency() : n) {}
+    void initialize() {}
+    void initialize(int n, unsigned = 1) { n_ = n < 1 ? info::default_concurrency() : n; }
+    void terminate() {}
+    bool is_active() const { return true; }
+    int max_concurrency() const { return n_; }
+    template<class F> auto execute(F &&f) -> decltype(f()) { Scope sc(n_); return f(); }
+    static int &current_size() { static int c = 0; return c; }
+private:
+    struct Scope { int old; explicit Scope(int n) : old(current_size()) { current_size() = n; } ~Scope() { current_size() = old; } };
+    int n_;
+};
+namespace this_task_arena {
+inline int max_concurrency() { int c = task_arena::current_size(); return c > 0 ? c : info::default_concurrency(); }
+inline int current_thread_index() { return tbbshim::ctl().mode == 0 ? (int) (tbbshim::rnd() % (std::uint64_t) max_concurrency()) : 0; }
+template<class F> auto isolate(F &&f) -> decltype(f()) { return f(); }
+}
 }
 namespace oneapi { namespace tbb = ::tbb; }
